@@ -125,6 +125,8 @@ def run(ctx):
     drv = ctx.build_driver()
     exe = ctx.build_harness("numtostr_harness.cpp")
     fast = ctx.build_harness("numtostr_harness.cpp", flags=core.FAST_FLAGS, tag="fast")
+    # the same headers configured with a 64-bit size type (QENTEM_SIZE_T is an override point of QCommon.hpp)
+    exe64 = ctx.build_harness("numtostr_harness.cpp", flags=core.FAST_FLAGS + ["-DQENTEM_SIZE_T=unsigned long long"], tag="size64")
     if not (drv and exe and fast):
         return
     rng = ctx.rng
@@ -195,14 +197,43 @@ def run(ctx):
         lines = N._dedupe(lines)
         impl = run_real_lines(lines, "real(%s)" % kind)
         oracle_reals(ctx, drv, lines, impl, "real(%s)" % kind)
+        # configuration independence: a build with a 64-bit size type must print the same texts
+        if exe64:
+            pick = [i for i, l in enumerate(lines) if True]
+            keep = set(rng.sample(pick, min(len(pick), 6000 if ctx.thorough else 900)))
+            for g, vals in groups:
+                if g in ("special", "nice"):
+                    want = set(real_line(kind, b) for b in (vals if ctx.thorough else vals[::4]))
+                    keep |= set(i for i, l in enumerate(lines) if l in want)
+            idx = sorted(keep)
+            sl = [lines[i] for i in idx]
+            o64, _ = N.run_guarded(ctx, exe64, sl, "size64(%s)" % kind, env=None)
+            if o64 is not None:
+                for i, o in zip(idx, o64):
+                    if o != impl[i] and not impl[i].startswith("FAULT"):
+                        loc = N.locate(None, o, impl[i])
+                        ctx.fail("config:size64", "text differs when the library is built with a 64-bit QENTEM_SIZE_T: " + lines[i],
+                                 {"line": single(lines[i], loc[0], loc[1]) if loc else lines[i],
+                                  "actual": N.text(loc[2]) if loc else "", "expected": N.text(loc[3]) if loc else ""})
+                ctx.count("size64-build(%s)" % kind, len(sl) * N.NPF, len(set(sl)) * N.NPF)
         # wide characters and non-empty destination streams (prefix must survive)
         pool = [b for g, vals in groups for b in vals]
         sub = rng.sample(pool, min(len(pool), 4000 if ctx.thorough else 500))
         wl = []
         for b in sub:
-            wl.append(real_line(kind, b, rng.choice(["1", "2", "4"]), N.random_pre(rng)))
+            wl.append(real_line(kind, b, rng.choice(N.WIDTHS), N.random_pre(rng)))
             if rng.random() < 0.3:
-                wl.append(real_line(kind, b, rng.choice(["2", "4"]), []))
+                wl.append(real_line(kind, b, rng.choice(["2", "4", "W"]), []))
+        # every character width (char16_t, char32_t and wchar_t have their own digit / zero tables) on the values
+        # that produce every run length of padding zeros, empty and pre-filled streams; thorough: plus a larger sample
+        pad = N.padding_doubles() if kind == "d" else N.padding_floats()
+        if ctx.thorough:
+            pad = pad + rng.sample(pool, min(len(pool), 3000))
+        for b in pad:
+            for w in ("2", "4", "W"):
+                wl.append(real_line(kind, b, w, []))
+            if ctx.thorough or rng.random() < 0.25:
+                wl.append(real_line(kind, b, rng.choice(["2", "4", "W"]), N.random_pre(rng)))
         impl = run_real_lines(wl, "real-prefilled(%s)" % kind)
         for l, o in zip(wl, impl):
             if "prefix-disturbed" in o:
@@ -225,7 +256,7 @@ def run(ctx):
     ic = N.int_cases(rng, ctx.thorough)
     il = []
     for k, (bits, sg, v) in enumerate(ic):
-        w = "1" if k % 5 else rng.choice(["2", "4"])
+        w = "1" if k % 5 else rng.choice(["2", "4", "W"])
         pre = N.random_pre(rng) if k % 7 == 0 else []
         il.append("n2si %d %d %d %s %s" % (bits, sg, v, w, core.show_units(pre)))
     il += clines_i
